@@ -41,6 +41,9 @@ CLAIMS = {
  "C20": dict(engine="core", design="4, 3.6",
    text='Same Core.tla with a ledger of user descriptors (open / closed by auto-close, deferred while an event still references the source) and, on the implementation side, a ledger of every descriptor the library opens (pipe, epoll handle, virtual timerfd) through wrapped pipe/epoll_create1/timerfd_create/close: replay requires user descriptors to be closed exactly when the spec says, failing close() calls (double close) to be absent, and no library descriptor to be open in clean states.',
    note='Bounded: 2-3 modules, <=2 payloads in flight, mailbox capacity 2-3, callback nesting <=2; one context per thread. Poll batches are chosen by the program through a wrapped epoll_wait (the really-ready set is compared). Trusted: TLC, dot parser, driver projection, a few white-box reads (running_modules, quit flag, mailbox descriptor, poll-source owner).'),
+ "C18": dict(engine="core", design="4, 3.6",
+   text='Same Core.tla with a token bucket per module: every rate-limited public call needs and takes one token (a start two: the call and its internal mailbox registration), fails with EAGAIN and no effect without one; the refill timer (virtual time: it expires when the program says so) adds one token up to the burst while the module is RUNNING; rate 0 and stop remove the limit. TLC checks tokens <= burst and the per-step accounting; replay compares the token count (and EAGAIN vs success) after every call for buckets (r,0), (r,1), (r,2).',
+   note='Bounded: 2-3 modules, <=2 payloads in flight, mailbox capacity 2-3, callback nesting <=2; one context per thread. Poll batches are chosen by the program through a wrapped epoll_wait (the really-ready set is compared). Trusted: TLC, dot parser, driver projection, a few white-box reads (running_modules, quit flag, mailbox descriptor, poll-source owner).'),
  "C05": dict(engine="structs", design="4/C05, 3.4",
    text="MapAbs.tla (dictionary with nondeterministic iteration order, key-copy ledger, destructor fates) is model-checked exhaustively by TLC on bounded configs (3 keys x 3 values, all flag combinations); its dumped state graph is replayed into the real map with plain keys, keys sharing one home slot and three key sets whose chains wrap around the end of the 256-slot table (all paths up to D mutating steps with all queries at every node, edge cover, random walks), comparing return values, full contents, length, iterator position, destructor counts and the allocator ledger (private key copies) after every step.",
    note="Bounded: 3 keys/3 values in E1/E2. Iteration order is followed by observation. Trusted: TLC, dot parser, driver projection, a copy of the public hash used only to search adversarial keys."),
@@ -82,7 +85,7 @@ def main():
                 "baseline_off_cmd": "cmake --build /repo/_build && ctest --test-dir /repo/_build -j8 --timeout 900",
                 "source_commits": [], "add_only": True},
       "engines": [
-        {"name": "core", "path": "spec/Core.tla spec/CoreMC.tla spec/Core_mc_*.cfg harness/drv_core.c harness/gw.h", "serves_properties": ["C01", "C02", "C03", "C07", "C08", "C09", "C13", "C15", "C16", "C17", "C19", "C20"], "kind_free_text": "TLC bounded model checking of a functional model of the core + replay of the dumped graph (API calls from top level and from callbacks) into the real library with wrapped epoll_wait/write/pipe/close"},
+        {"name": "core", "path": "spec/Core.tla spec/CoreMC.tla spec/Core_mc_*.cfg harness/drv_core.c harness/gw.h", "serves_properties": ["C01", "C02", "C03", "C07", "C08", "C09", "C13", "C15", "C16", "C17", "C18", "C19", "C20"], "kind_free_text": "TLC bounded model checking of a functional model of the core + replay of the dumped graph (API calls from top level and from callbacks) into the real library with wrapped epoll_wait/write/pipe/close"},
         {"name": "thpool", "path": "spec/Thpool.tla spec/ThpoolMC.tla harness/vp_sched.h harness/drv_thpool.c", "serves_properties": ["C06"], "kind_free_text": "TLC (safety + liveness) + controlled-schedule replay of the dumped state graph on the real thpool.c"},
         {"name": "structs", "path": "spec/{Seqs,Bst,MapAbs,Mem,MemTrace}.tla harness/drv_{seqs,bst,map,mem}.c harness/gw.h", "serves_properties": ["C05", "C10", "C11", "C12"], "kind_free_text": "TLC bounded model checking + replay of the dumped state graph into the real code + TLC trace validation"},
       ],
